@@ -33,9 +33,9 @@ def lengths(tier):
 
 def make_cases(tier, seed):
     ls = lengths(tier)
-    exh = 8 if tier == "quick" else 12
-    samples = 6 if tier == "quick" else 24
-    export_nodes = 400 if tier == "quick" else 1200
+    exh = 8 if tier == "quick" else 10
+    samples = 6 if tier == "quick" else 12
+    export_nodes = 400 if tier == "quick" else 600
     cases = []
 
     def add(kind, n, mode, call, it):
@@ -74,7 +74,7 @@ def run(chk):
     # ---- 2. the code
     cases = make_cases(tier, chk.seed)
     by_id = {c["id"]: c for c in cases}
-    batch = 500 if tier == "quick" else 300
+    batch = 500 if tier == "quick" else 400
     strat = {}
     n_inputs = n_exh = n_exported = n_fail = 0
     status = {}
@@ -149,7 +149,26 @@ def run(chk):
             chk.sample({"case": by_id[cid], "strategy": strat[cid]})
     chk.assumptions += [
         "bodies declared associative / one-bit / small-state satisfy their stated contracts (the generated bodies do)",
-        "inputs are exhaustive up to %d input bits per case and seeded samples above" % (8 if tier == "quick" else 12),
+        "inputs are exhaustive up to %d input bits per case and seeded samples above" % (8 if tier == "quick" else 10),
         "bodies with a Random node are judged structurally (one fresh Random node per inlined copy), not by value",
         "the strategy that ran is derived from node counts of the inlined graph (no hook in inline_iterate)",
     ]
+
+
+def replay(path):
+    """Re-executes one recorded violation against /repo (no TLC): prints what the code does now."""
+    v = json.load(open(path))
+    case = v["replay"].get("case")
+    if not case:
+        print("design-model violation, re-run: bin/check C07 quick")
+        return 2
+    work = os.path.join(lib.WORK, "C07")
+    os.makedirs(work, exist_ok=True)
+    cp, op = os.path.join(work, "replay_case.ndjson"), os.path.join(work, "replay_out.ndjson")
+    lib.write_ndjson(cp, [dict(case, export_nodes=0)])
+    lib.harness(["c07", cp, op], binary="inline")
+    r = lib.read_ndjson(op)[0]
+    bad = [i for i in range(len(r["inputs"])) if r["orig_res"][i] != r["inl_res"][i]]
+    print(json.dumps({"case": case, "status": r["status"], "err": r["err"], "inputs": len(r["inputs"]),
+                      "differing_inputs": [r["inputs"][i] for i in bad[:5]], "hist": r["hist"]}))
+    return 1 if (bad or r["status"] != "ok") else 0
